@@ -950,3 +950,67 @@ Proof.
   - split; [exact (proj1 (end_of_day_request_on_the_wire cfg H1))|exact (proj1 (initialization_request_on_the_wire cfg H1))].
   - intros tok pl Ht. exact (proj1 (begin_request_on_the_wire (c_amount cfg) (c_currency cfg) tok pl H3 H2 Ht)).
 Qed.
+
+(* ---- SetTerminalId: password and an id of at most eight digits ---- *)
+Definition set_terminal_id_value (pw n : N) : value := VRec [VInt pw; VSome (VInt n)].
+
+Lemma set_terminal_id_in_class pw n : pw < 10 ^ 6 -> n <= 99999999 ->
+  exists b, canon_cmd (cmd_of "zvt::packets::SetTerminalId") (set_terminal_id_value pw n) = Some b.
+Proof.
+  intros Hpw Hn.
+  destruct (pos_bcd 3 pw) as [g1 [H1 L1]]; [change (100 ^ 3) with (10 ^ 6); exact Hpw|change (10 ^ 6) with 1000000 in Hpw; change (2 ^ 64) with 18446744073709551616; lia|].
+  destruct (fld_bcd 4 41 n eq_refl) as [g2 [H2 L2]]; [change (100 ^ 4) with 100000000; lia|change (2 ^ 64) with 18446744073709551616; lia|].
+  apply (class_cmd_pos_tagged (cmd_of "zvt::packets::SetTerminalId")
+           [Fld "password" None (LFixed 3) EBcd (TPrim (PInt 8))] [VInt pw] (3 + 0)
+           [Fld "terminal_id" (Some 41) (LFixed 4) EBcd (TOpt (TPrim (PInt 8)))] [VSome (VInt n)] (6 + 0)).
+  - reflexivity.
+  - eapply po_cons; [exact H1|exact L1|apply po_nil].
+  - eapply to_cons; [reflexivity|exact H2|exact L2|apply to_nil].
+  - reflexivity.
+  - lia.
+  - reflexivity.
+Qed.
+
+Theorem set_terminal_id_request_on_the_wire pw n : pw < 10 ^ 6 -> n <= 99999999 ->
+  let req := mk_cmd "zvt::packets::SetTerminalId" [VInt pw] [(41, VSome (VInt n))] in
+  req <> [] /\ forall r, dec_cmd FUEL (cmd_of "zvt::packets::SetTerminalId") (req ++ r) = Ok (set_terminal_id_value pw n, r).
+Proof.
+  intros Hpw Hn req. destruct (set_terminal_id_in_class pw n Hpw Hn) as [b Hb].
+  destruct (canon_cmd_roundtrip _ _ _ Hb) as [Henc Hdec].
+  assert (Hreq : req = b).
+  { unfold req, mk_cmd, run_enc.
+    change (find_struct "zvt::packets::SetTerminalId") with (Some (Some (6, 27), S_zvt_packets_SetTerminalId)).
+    change (snd (layout_of "zvt::packets::SetTerminalId")) with S_zvt_packets_SetTerminalId.
+    change (build_rec S_zvt_packets_SetTerminalId _ _) with [VInt pw; VSome (VInt n)].
+    cbv beta iota.
+    change {| c_class := 6; c_instr := 27; c_fields := S_zvt_packets_SetTerminalId |} with (cmd_of "zvt::packets::SetTerminalId").
+    unfold set_terminal_id_value in Henc. rewrite Henc. reflexivity. }
+  rewrite Hreq. split.
+  - intros ->. unfold enc_cmd in Henc. destruct (enc_struct _ _) as [p| | |]; try discriminate; cbn [bind] in Henc;
+    unfold framed_enc in Henc; cbn [len_ser] in Henc; destruct (blen p <? 255); cbn [bind] in Henc; discriminate.
+  - intros r. apply Hdec. vm_compute. lia.
+Qed.
+
+(* every request of every public operation, for an accepted configuration: none of them is the empty packet the model writes
+   when the encoder fails (mk_cmd is total; the failure case is a panic of the code) — receipt numbers as a terminal issues
+   them (below 10000), terminal ids as set_terminal_id lets them through, tokens as the property quantifies them *)
+Theorem accepted_configuration_never_fails_to_encode cfg : cfg_ok cfg = true ->
+  (forall tok pl rn amount, token_ok tok pl -> rn < 10000 ->
+     mk_cmd "zvt::packets::PartialReversal" []
+       [(135, VSome (VInt rn)); (73, VSome (VInt (c_currency cfg))); (4, VSome (VInt (c_amount cfg - amount))); (25, VSome (VInt 64)); (6, bmp60 tok)] <> []) /\
+  (forall rn, rn < 10000 ->
+     mk_cmd "zvt::packets::PreAuthReversal" [] [(25, VSome (VInt 64)); (73, VSome (VInt (c_currency cfg))); (135, VSome (VInt rn))] <> []) /\
+  (forall n, n <= 99999999 -> mk_cmd "zvt::packets::SetTerminalId" [VInt (c_password cfg)] [(41, VSome (VInt n))] <> []) /\
+  mk_cmd "zvt::packets::PartialReversal" [] [(135, VSome (VInt 65535))] <> [] /\
+  sysinfo_cmd <> [].
+Proof.
+  intros H. unfold cfg_ok in H. apply andb_prop in H. destruct H as [H H3]. apply andb_prop in H. destruct H as [H1 H2].
+  apply N.ltb_lt in H1, H2, H3. change (10 ^ 4) with 10000 in H2.
+  split; [|split; [|split; [|split]]].
+  - intros tok pl rn amount Ht Hrn.
+    exact (proj1 (commit_request_on_the_wire rn (c_amount cfg - amount) (c_currency cfg) tok pl (or_introl Hrn) ltac:(lia) H2 Ht)).
+  - intros rn Hrn. exact (proj1 (cancel_request_on_the_wire (c_currency cfg) rn H2 Hrn)).
+  - intros n Hn. exact (proj1 (set_terminal_id_request_on_the_wire (c_password cfg) n H1 Hn)).
+  - exact (proj1 pending_query_on_the_wire).
+  - vm_compute. discriminate.
+Qed.
